@@ -39,6 +39,30 @@ func init() {
 			"float/datetime/regex constraints are outside this harness (not symbolically interpretable)",
 		},
 	}
+	var c03quick, c03all []int
+	for pi := 0; pi < 20; pi++ {
+		c03quick = append(c03quick, pi*8+(pi%4))
+		for ci := 0; ci < 4; ci++ {
+			c03all = append(c03all, pi*8+ci)
+		}
+	}
+	props["C03"] = PropSpec{
+		ID: "C03",
+		Runs: []HarnessRun{
+			{Rel: ".", Dir: "fiber", Entry: "VH_C03_complete", Cases: tierCases(c03quick, c03all), Reach: []string{"matched"}, MaxPaths: 60000},
+			{Rel: ".", Dir: "fiber", Entry: "VH_C03_rpm", Cases: tierCases(c03quick, c03all), Reach: []string{"ran", "not-ran"}, MaxPaths: 60000},
+		},
+		Bounds: map[string]string{
+			"quick":    "20 delimited patterns (one routing config each, rotating over the 4 CaseSensitive x StrictRouting configs); every parameter value symbolic of length 0..2 (named and + >= 1); RoutePatternMatch vs dispatch on fully symbolic paths of the listed lengths (<= 9)",
+			"thorough": "20 delimited patterns x 4 routing configs, same value/path bounds",
+		},
+		Assumptions: []string{
+			"values are printable ASCII without '?', '#', '%'; named values without '/'",
+			"side condition of the statement read strictly: no additional occurrence (case-folded when case-insensitive) of a literal that follows a parameter, nor of that literal without its trailing slashes",
+			"UnescapePath (percent-decoding) is not exercised by this harness",
+			"html.EscapeString and fasthttp.normalizePath stubbed (404 text / normalised path not observed by the router)",
+		},
+	}
 	props["SMOKEFAIL"] = PropSpec{
 		ID: "SMOKEFAIL",
 		Runs: []HarnessRun{
